@@ -414,6 +414,28 @@ def ob_reopen_busy(w, P):
     flag('nontrivial')
     return cl
 
+def ob_key_storage_class(w, P):
+    """keys keep their storage class in the table a fresh directory gets: text that looks like a number, the number itself,
+    an integral float and the bytes are four different keys, and iteration hands each back with its own type (the key and
+    value columns carry no affinity that would convert them)"""
+    L = w.L
+    core = L.core
+    w.clock_fn = lambda: 1000.0
+    cl = []
+    c = core.Cache(w.dir)
+    pairs = [('42', 1), (42, 2), (3.0, 3), (b'42', 4), ('007', 5), ('7', 6), (7.0, 7), (' 9', 8), ('1e3', 9)]
+    for k, v in pairs:
+        c.set(k, v)
+    got = list(c)
+    cl.append(('C02,C18', 'numeric-looking text, numbers and bytes are distinct keys (%d entries for %d keys)' % (len(c), len(pairs)), len(c) == len(pairs)))
+    ok = all(c.get(k) == v for k, v in pairs) and c.get(7) == 7 and c.get(42.0) == 2  # equal numbers are one key, whatever their type
+    cl.append(('C02', 'every key finds its own value', ok))
+    cl.append(('C02,C18', 'iteration returns every key with the type it was stored with (%r)' % (got,),
+               [(type(k), k) for k in got[:6]] == [(type(k), k) for k, _ in pairs[:6]]))
+    flag('nontrivial')
+    return cl
+
+
 def ob_fresh_connection_busy(w, P):
     """the first operations of a handle on a fresh connection (after close(), or from a thread that has not used the object
     yet) while another client holds the write lock: opening the connection only re-applies the stored sqlite_* pragmas, so
@@ -480,6 +502,8 @@ def ob_fresh_connection_busy(w, P):
 def jobs(tier):
     out = []
     F = ['core.Cache.__init__', 'core.Cache._con', 'core.Cache.reset', 'core.Cache.close', 'core.Cache.__getstate__', 'core.Cache.__setstate__']
+    out.append(dict(id='persist.key_storage_class', func='ob_key_storage_class', params={}, tags=['C02', 'C18'], functions=['core.Cache.__init__', 'core.Cache.set', 'core.Cache.get', 'core.Disk.put', 'core.Disk.get'],
+                    weight=3, twin=False))
     for how in ('closed', 'thread'):
         out.append(dict(id='fresh_connection.busy.%s' % how, func='ob_fresh_connection_busy', params=dict(how=how), tags=['C14', 'C18'], functions=F + ['core.Cache.get', 'core.Cache.set', 'core.Cache.__contains__'],
                         weight=4, twin=False, must_reach=['lock_busy']))
